@@ -31,6 +31,11 @@ func BuildMethodCallMethod(jMethodCall *core_domain.CodeCall, callee string, tar
 	methodName := callee
 	packageName := currentPkg
 
+	// `this.method()` is a call on the enclosing class, like the unqualified `method()`
+	if targetType == "this" {
+		targetType = currentClz
+	}
+
 	fullType, callType := WarpTargetFullType(targetType)
 	if targetType == "super" || callee == "super" {
 		callType = "super"
